@@ -207,3 +207,38 @@ def proxy_forwards(ctx):
     ok = any(call_attr(c) == 'register_callback' and any('updateEvent' in src(a) for a in c.args) for c in calls_in(im.node))
     ctx.check(ok, f'{im.qualname}:registers updateEvent', im.node, 'register_callback(module, self.updateEvent, ...)',
               'the proxy module does not register its updateEvent callback', im)
+
+
+@rule('C12.R2b', min_instances=1)
+def callback_dispatch_iterates_a_copy(ctx):
+    """ProxyClient.callback: the list that callbacks may shrink during dispatch (UnregisterCallback) is iterated as a copy"""
+    m = ctx.m
+    f = m.method(PC, 'callback', inherited=False)
+    ctx.analysed(f)
+    n = 0
+    for loop in [x for x in body_walk(f.node) if isinstance(x, ast.For)]:
+        removed = {src(c.func.value) for c in calls_in(loop) if call_attr(c) in ('remove', 'pop', 'clear') and isinstance(c.func, ast.Attribute)}
+        if not removed:
+            continue
+        n += 1
+        it = loop.iter
+        copied = (isinstance(it, ast.Call) and dotted(it.func) in ('list', 'tuple') and it.args and src(it.args[0]) in removed) or \
+            (isinstance(it, ast.Call) and call_attr(it) == 'copy') or (isinstance(it, ast.Subscript) and isinstance(it.slice, ast.Slice))
+        direct = src(it) in removed
+        if copied:
+            ctx.ok(f'{f.qualname}:dispatch iterates a copy', loop, f'for ... in {src(it)}', f)
+        elif direct:
+            ctx.bad(f'{f.qualname}:dispatch iterates a copy', loop, f'`for ... in {src(it)}` iterates the live list while the loop body removes from it: after a '
+                    'one-shot callback (UnregisterCallback) the next callback under the same key silently misses this message', f)
+        else:
+            ctx.undecided(f'{f.qualname}:dispatch iterates a copy', loop, 'iteration form not recognised', f)
+    if not n:
+        ctx.undecided(f'{f.qualname}:dispatch iterates a copy', f.node, 'no loop removing callbacks found', f)
+
+
+@rule('C12.R6b', min_instances=4)
+def written_value_comes_back_as_the_driver_returned_it(ctx):
+    """shared with C04.R5: the write wrapper validates, calls the driver once and caches exactly what the driver returned
+    (a falsy return value is a value, only None means 'no return value')"""
+    from sa.rules import c04
+    c04.wrapper_order(ctx)
